@@ -125,8 +125,11 @@ class Problem:
         self.weighted = weighted
         self.two_d = self.coordinates[0].ndim == 2
         self.extra = extra
+        self.omit_default_weights = bool(rng.random() < 0.6)
 
     def args(self):
+        if self.weights is None and self.omit_default_weights:
+            return self.coordinates, self.data  # rely on the documented default ``weights=None``
         return self.coordinates, self.data, self.weights
 
     def elsewhere(self, rng, two_d=None):
@@ -713,6 +716,80 @@ def large_problem(rng, gen, index):
     return kind, (east, north), data, weights
 
 
+def _documented(verde):
+    """(built with no optional argument, built with every documented default spelled out) for each class that has optional arguments."""
+    return [
+        ("BlockReduce", lambda **k: verde.BlockReduce(np.median, **k),
+         dict(region=None, adjust="spacing", center_coordinates=False, shape=None, drop_coords=True)),
+        ("BlockMean", lambda **k: verde.BlockMean(**k),
+         dict(region=None, adjust="spacing", center_coordinates=False, uncertainty=False, shape=None, drop_coords=True)),
+        ("KNeighbors", lambda **k: verde.KNeighbors(**k), dict(k=1, reduction=np.mean)),
+        ("Linear", lambda **k: verde.Linear(**k), dict(rescale=False)),
+        ("Cubic", lambda **k: verde.Cubic(**k), dict(rescale=False)),
+        ("Spline", lambda **k: verde.Spline(**k), dict(mindist=None, damping=None, force_coords=None, engine="auto")),
+        ("VectorSpline2D", lambda **k: verde.VectorSpline2D(**k), dict(poisson=0.5, mindist=10e3, damping=None, force_coords=None, engine="auto")),
+    ]
+
+
+def _equal_outputs(a, b):
+    if isinstance(a, (tuple, list)) or isinstance(b, (tuple, list)):
+        return isinstance(a, (tuple, list)) and isinstance(b, (tuple, list)) and len(a) == len(b) and all(_equal_outputs(x, y) for x, y in zip(a, b))
+    if a is None or b is None:
+        return a is None and b is None
+    a, b = np.asarray(a), np.asarray(b)
+    return a.shape == b.shape and bool(np.array_equal(a, b, equal_nan=True))
+
+
+def defaults(run, verde, gen, rng, tier):
+    """
+    Documented defaults. The monitors read constructor parameters from the objects and the tap binds missing arguments, so a changed
+    default would be followed silently: steps built with NO optional argument must behave exactly like steps built with the documented
+    defaults spelled out (same filter outputs inside a chain, same chain prediction), and calls without ``weights`` like ``weights=None``.
+    """
+    problem = Problem(rng, gen, tier, ncomp=1, weighted=False, two_d=False, extra=True, hi=60, dtype_class="float64", int_coords=False)
+    pair = Problem(rng, gen, tier, ncomp=2, weighted=False, two_d=False, extra=False, n=problem.n, hi=60, dtype_class="float64", int_coords=False)
+    spacing = float(max(np.ptp(problem.pts[0]), np.ptp(problem.pts[1])) / int(rng.integers(3, 6)))
+    for name, make, documented in _documented(verde):
+        required = {"spacing": spacing} if name.startswith("Block") else {}
+        bare, spelled = make(**required), make(**dict(documented, **required))
+        prob = pair if name == "VectorSpline2D" else problem
+        out = []
+        for est in (bare, spelled):
+            if name.startswith("Block"):
+                steps = [("step", est), ("trend", verde.Trend(1))]
+            else:
+                steps = [("trend", verde.Trend(1) if prob.ncomp == 1 else verde.Vector([verde.Trend(1), verde.Trend(1)])), ("step", est)]
+            chain = verde.Chain(steps)
+            chain.fit(prob.coordinates, prob.data)  # weights left out on purpose
+            out.append((est.filter(prob.coordinates, prob.data), chain.predict(prob.coordinates), chain.predict(prob.coordinates[:2])))
+        run.evaluated("defaults_equal_documented")
+        run.count("defaults:" + name)
+        same_params = repr(sorted(bare.get_params(deep=False).items(), key=lambda kv: kv[0])) == repr(sorted(spelled.get_params(deep=False).items(), key=lambda kv: kv[0]))
+        if not same_params or not _equal_outputs(out[0], out[1]):
+            run.violation("defaults_equal_documented", "%s built without optional arguments differs from %s built with the documented defaults %s"
+                          % (name, name, sorted(documented)),
+                          {"class": name, "documented": {k: repr(v) for k, v in documented.items()}, "parameters_without_arguments": repr(bare.get_params(deep=False)),
+                           "coordinates": prob.coordinates, "data": prob.data, "filter_without_arguments": out[0][0], "filter_documented": out[1][0]},
+                          key="defaults:" + name)
+    # weights threaded past steps that ignore them, into steps that use them, and weights that are live at a reduction
+    weighted = Problem(rng, gen, tier, ncomp=1, weighted=True, hi=80, int_coords=False)
+    shape = (int(rng.integers(2, 5)), int(rng.integers(2, 5)))
+    m = _occupied(weighted.pts, shape)
+    knn = lambda: verde.KNeighbors(k=int(rng.integers(2, 4)))  # noqa: E731
+    lists = [
+        [("neighbours", knn()), ("trend", verde.Trend(int(rng.integers(1, 3))))],
+        [("neighbours", knn()), ("spline", verde.Spline(damping=_log_uniform(rng, 1e-3, 1.0)))],
+        [("level", LevelStep()), ("neighbours", knn()), ("mean", verde.BlockMean(shape=shape, uncertainty=True)), ("trend", verde.Trend(1))],
+        [("trend", verde.Trend(1)), ("neighbours", knn()), ("reduce", verde.BlockReduce(np.average, shape=shape)), ("trend2", verde.Trend(0 if m < 4 else 1))],
+        [("neighbours", knn()), ("mean", verde.BlockMean(shape=shape)), ("neighbours2", verde.KNeighbors(k=1)), ("spline", verde.Spline(damping=1e-2))],
+    ]
+    for steps in lists:
+        chain = verde.Chain(steps)
+        chain.fit(*weighted.args())
+        chain.predict(weighted.coordinates)
+    run.count("workload:defaults_batches")
+
+
 def large(run, verde, gen, rng, tier, index):
     """
     Large counts through filter / Chain.fit / Chain.filter / Vector.filter with cheap steps (no dense spline at this size): the
@@ -748,6 +825,10 @@ def drive(run, verde, gen, stream, index, rng):
         return ambient(run, verde, index)
     if stream == "large":
         return large(run, verde, gen, rng, tier, index)
+    if stream == "defaults":
+        for _ in range(3):
+            defaults(run, verde, gen, rng, tier)
+        return None
     if stream == "scalar_chain":
         scalar_chain(run, verde, gen, rng, tier, batch=10)
     elif stream == "vector":
